@@ -20,6 +20,10 @@ type Cycle struct {
 	StatusAt   []int `json:"status_at"`   // indices into the muted burst after which a status line is triggered
 	SecondCtrl int   `json:"second_ctrl"` // ms after the last muted marker at which Ctrl+O is pressed again (0 = never)
 	After      int   `json:"after"`       // markers sent after the announced unmute: must all be shown
+	// StatusLateMS: ms after the last muted marker (or Ctrl+O) at which status
+	// lines are triggered while the shell is silent (ascending, each < 1900):
+	// only shell output may keep the mute going.
+	StatusLateMS []int `json:"status_late_ms,omitempty"`
 }
 
 // C19Case is a schedule of 1-3 mute cycles.
@@ -146,8 +150,17 @@ func runC19(t testing.TB, c C19Case) (key, what string, classes []string) {
 			}
 			classes = append(classes, "status-while-muted")
 		}
+		var lateStatus time.Time
+		for _, ms := range cy.StatusLateMS {
+			time.Sleep(time.Until(lastPlain.Add(time.Duration(ms) * time.Millisecond)))
+			lateStatus = time.Now()
+			if err := status(); err != nil {
+				return "HARNESS", "status trigger: " + err.Error(), classes
+			}
+			classes = append(classes, "status-during-calm-while-muted")
+		}
 		var second time.Time
-		if cy.SecondCtrl > 0 {
+		if cy.SecondCtrl > 0 && len(cy.StatusLateMS) == 0 {
 			_, nAgain := firstSeen(p.Chunks(), againMsg)
 			time.Sleep(time.Until(lastPlain.Add(time.Duration(cy.SecondCtrl) * time.Millisecond)))
 			second = time.Now()
@@ -173,6 +186,18 @@ func runC19(t testing.TB, c C19Case) (key, what string, classes []string) {
 		}
 		if d := U.Sub(lastPlain); d < pause-50*time.Millisecond {
 			return "unmuted-too-early", fmt.Sprintf("%s: un-muted %.0f ms after the last suppressed output / Ctrl+O (pause interval is 2000 ms)", desc, float64(d.Milliseconds())), classes
+		}
+		if !lateStatus.IsZero() && lateStatus.Sub(lastPlain) >= time.Second {
+			// a status line must not extend the mute
+			if U.Sub(lastPlain) > pause+700*time.Millisecond {
+				if U.Sub(lateStatus) >= pause-100*time.Millisecond {
+					if confirmExtensionBy(p, marker, func() { status() }) {
+						return "status-line-extended-mute", fmt.Sprintf("%s: un-muted %.0f ms after the last shell output, i.e. 2 s after a status line shown while muted (confirmed by a second identical cycle)", desc, float64(U.Sub(lastPlain).Milliseconds())), classes
+					}
+					return "HARNESS", desc + ": un-mute looked extended by a status line once, but not when repeated", classes
+				}
+				return "HARNESS", desc + ": un-mute later than expected, cause unclear", classes
+			}
 		}
 		if !second.IsZero() && second.Sub(lastPlain) >= time.Second {
 			// a repeated Ctrl+O must not extend the mute
@@ -255,6 +280,8 @@ func genC19() *rapid.Generator[C19Case] {
 			}
 			if rapid.IntRange(0, 2).Draw(t, "second") == 0 {
 				cy.SecondCtrl = rapid.SampledFrom([]int{300, 1200, 1300}).Draw(t, "secondms")
+			} else if rapid.IntRange(0, 1).Draw(t, "latestatus") == 0 {
+				cy.StatusLateMS = rapid.SampledFrom([][]int{{1200}, {1000, 1700}, {600, 1200, 1800}, {1500}}).Draw(t, "latems")
 			}
 			c.Cycles = append(c.Cycles, cy)
 		}
@@ -337,6 +364,12 @@ func dedup(in []string) []string {
 // reports whether the un-mute again comes 2 s after the repeated Ctrl+O rather
 // than 2 s after the marker.
 func confirmExtension(p *Proc, marker func(string) error) bool {
+	return confirmExtensionBy(p, marker, func() { p.Type("\x0f") })
+}
+
+// confirmExtensionBy is confirmExtension with an arbitrary action 1.2 s after
+// the marker.
+func confirmExtensionBy(p *Proc, marker func(string) error, act func()) bool {
 	time.Sleep(guard)
 	_, nMute := firstSeen(p.Chunks(), muteMsg)
 	_, nUn := firstSeen(p.Chunks(), unmuteMsg)
@@ -349,7 +382,7 @@ func confirmExtension(p *Proc, marker func(string) error) bool {
 	last := time.Now()
 	time.Sleep(1200 * time.Millisecond)
 	second := time.Now()
-	p.Type("\x0f")
+	act()
 	p.WaitFor(8*time.Second, func(o string) bool { return strings.Count(o, unmuteMsg) > nUn })
 	U := nthSeen(p.Chunks(), unmuteMsg, nUn+1)
 	if U.IsZero() {
